@@ -18,7 +18,7 @@ import json
 import os
 
 from .. import cfg, flow, errflow, query, callgraph
-from ..facts import op_place, VERIF
+from ..facts import op_place, VERIF, const_int
 
 EI = "minijinja::vm::Executor::eval_impl"
 CHAIN = (EI, "minijinja::vm::Executor::do_eval", "minijinja::vm::Executor::eval_state")
@@ -427,6 +427,75 @@ def check_depth_accounting(ctx, prog, tag):
         ctx.floor("C11.R6 decr_depth call sites" + tag, n, 1)
 
 
+def check_swapped_contexts(ctx, prog, tag):
+    """R9: an evaluation that installs *another* context (`mem::replace(&mut state.ctx, new)`, macros) continues the
+    depth accounting of the call site on every path: a call on the new context that writes the depth counter from an
+    argument derived from `depth()` of the current context dominates the swap, and nothing that zeroes the counter
+    (`clear`, a reset) lies between that call and the swap.  A depth handed over only when the context is freshly
+    built (`pool.pop().unwrap_or_else(|| Context::with_depth(d))`) leaves recycled contexts at depth 0: recursion
+    through a macro that calls another macro first is never cut off."""
+    if not prog.has_fn(DEPTH):
+        return
+    dfn = prog.fn(DEPTH)
+    fields = {e["n"] for bb, p, w in query.all_places(dfn) for e in p.get("p", []) if isinstance(e, dict) and e.get("ty") in ("usize", "u32", "u64") and "n" in e}
+    if not fields:
+        return          # a configuration without nested evaluations: depth() is the frame count alone
+    writers = {}        # function -> 'zero' | 'param'
+    for fld in fields:
+        for (pf, bb, adt, op, call) in flow.field_producers(prog, fld):
+            if adt is None or not adt.endswith("context::Context"):
+                continue
+            if op is not None and "c" in op:
+                kind = "zero" if const_int(op) == 0 else "const"
+            else:
+                kind = "param" if op is not None and any(
+                    o.kind == "arg" or (o.kind == "bin") for o in flow.origins(pf, op)) else "other"
+            writers.setdefault(pf.path, set()).add(kind)
+    # one level of wrappers (reset_with_frame -> clear)
+    for f in prog.fns.values():
+        if f.path in writers or not f.path.startswith("minijinja::vm::context::Context::"):
+            continue
+        for c in f.calls():
+            if c.name in writers and "zero" in writers[c.name] and c.args and any(
+                    o.kind == "arg" and o.arg == 1 for o in flow.origins(f, c.args[0])):
+                writers.setdefault(f.path, set()).add("zero")
+    n = 0
+    for f in prog.fns.values():
+        if f.crate != "minijinja":
+            continue
+        swaps = [c for c in f.calls() if c.name == "core::mem::replace" and len(c.args) == 2 and any(
+            o.kind == "arg" and o.proj and o.proj[-1] == "ctx" for o in flow.origins(f, c.args[0]))]
+        if not swaps:
+            continue
+        first = [c for c in swaps if not any(o.kind == "call" and o.call.name == "core::mem::replace" for o in flow.origins(f, c.args[1]))]
+        for sw in first:
+            n += 1
+            newctx = {o.key() for o in flow.origins(f, sw.args[1])}
+            inherit, zero = [], []
+            for c in f.calls():
+                if c.bb == sw.bb or not c.args or c.name not in writers:
+                    continue
+                if not ({o.key() for o in flow.origins(f, c.args[0])} & newctx):
+                    continue
+                if "param" in writers[c.name] and len(c.args) > 1 and any(
+                        x.kind == "call" and x.call.name == DEPTH
+                        for a in c.args[1:] if "c" not in a for o in flow.origins(f, a)
+                        for x in ([o] + ([y for sd in ("a", "b") if o.kind == "bin" and "c" not in o.rv[sd] for y in flow.origins(f, o.rv[sd])]))):
+                    inherit.append(c)
+                elif "zero" in writers[c.name]:
+                    zero.append(c)
+            good = [c for c in inherit if cfg.dominates(f, c.bb, sw.bb) and not any(
+                cfg.dominates(f, c.bb, z.bb) and cfg.dominates(f, z.bb, sw.bb) and z.bb != c.bb for z in zero)]
+            # the error side of the inheriting call does not reach the swap
+            ctx.ob("C11.R9.swapped-in-context-inherits-the-depth-on-every-path", "%s%s" % (tag, f.path.split("::")[-1]), bool(good),
+                   "the context installed by %s does not receive the depth of the call site on every path to the swap "
+                   "(calls that set it from depth(): %s; calls that zero it: %s): a recycled context starts at depth 0 and "
+                   "the recursion limit counts from there" % (f.path.split("::")[-1], [c.name.split("::")[-1] for c in inherit],
+                                                               [c.name.split("::")[-1] for c in zero]), f.where(sw.bb))
+    if prog.has_fn("minijinja::vm::Executor::eval_macro"):
+        ctx.floor("C11.R9 context swaps" + tag, n, 1)
+
+
 def run(ctx):
     ctx.explain("C11: must-pass-through rule (a propagated depth charge dominates every re-entry into the "
                 "interpreter), structure of push_frame/incr_depth/check_depth, reviewed cost constants and the "
@@ -602,6 +671,7 @@ def run(ctx):
                           "never trips")
         if prog.has_fn("minijinja::vm::Executor::call_block"):
             ctx.floor("C11.R7 conditional charges keyed on the current block" + tag, check_conditional_charges(ctx, prog, tag), 1)
+        check_swapped_contexts(ctx, prog, tag)
 
         # R3
         g = callgraph.get(prog)
